@@ -14,6 +14,7 @@ import (
 	"pgregory.net/rapid"
 	"verif/harness/ev"
 	"verif/harness/gen"
+	"verif/harness/model"
 	"verif/harness/oracle"
 	"verif/harness/spec"
 	"verif/harness/sup"
@@ -364,6 +365,32 @@ func workerFn(raw json.RawMessage) json.RawMessage {
 	return b
 }
 
+// withDisabledSet adds a value for the first disabled property found along the objects of the value.
+func withDisabledSet(s *spec.Spec, env *model.Env, v val.V) (val.V, bool) {
+	o, oenv := model.Resolve(s, env)
+	if o == nil || o.Kind != spec.KObject || !strings.HasPrefix(v.T, "map") {
+		return v, false
+	}
+	for i := range o.Props {
+		if o.Props[i].Disabled {
+			c := v
+			c.M = append(append([]val.KV(nil), v.M...), val.KV{K: val.Str(o.Props[i].Name), V: val.Int("int64", 1)})
+			return c, true
+		}
+	}
+	for i, e := range v.M {
+		if p := o.PropByName(e.K.S); p != nil {
+			if d, ok := withDisabledSet(p.Type, oenv, e.V); ok {
+				c := v
+				c.M = append([]val.KV(nil), v.M...)
+				c.M[i].V = d
+				return c, true
+			}
+		}
+	}
+	return v, false
+}
+
 func specJSON(s *spec.Spec) string {
 	b, _ := json.Marshal(s)
 	return string(b)
@@ -429,6 +456,14 @@ func genCase(rt *rapid.T, globals bool) Case {
 		}
 	}
 	pool = append(pool, val.V{T: "map[string]any"}, gen.Hostile(2).Draw(rt, "hostile"))
+	// inputs that set a disabled property: refused by every route that unserializes, concurrently by several callers
+	for _, v := range append([]val.V(nil), pool...) {
+		if d, ok := withDisabledSet(s, nil, v); ok {
+			pool = append(pool, d)
+			ev.Class("input_sets_disabled_property", 1)
+			break
+		}
+	}
 	kinds := []string{"unserialize", "roundtrip", "roundtrip", "compat", "callstep", "callsignal", "callsignal", "describe", "rebuild"}
 	if !gen.IsRecursive(s) {
 		// schema-mode compatibility of recursive graphs is the recorded finding recursive-compat (C15)
